@@ -157,6 +157,18 @@ func (o *byteOrigin) rawServer(t *testing.T) (addr string, stop func()) {
 						conn.Write([]byte("HTTP/1.1 404 Not Found\r\nContent-Length: 0\r\n\r\n"))
 						continue
 					}
+					if req.Header.Get("X-Verif-Validate") != "" && req.Header.Get("If-None-Match") != "" {
+						// the validation round: not modified, with a changed and a new field
+						proto := "HTTP/1.1"
+						if c.Framing == "http10" {
+							proto = "HTTP/1.0"
+						}
+						fmt.Fprintf(conn, "%s 304 Not Modified\r\nCache-Control: max-age=700\r\nEtag: %s\r\nX-Fresh: 1\r\n\r\n", proto, req.Header.Get("If-None-Match"))
+						if c.Framing == "close" || c.Framing == "http10" {
+							return
+						}
+						continue
+					}
 					conn.Write(c.raw())
 					if c.Framing == "close" || c.Framing == "http10" {
 						return
@@ -173,6 +185,13 @@ func (o *byteOrigin) h2Handler() http.Handler {
 		c := o.lookup(r.URL.Path)
 		if c == nil {
 			w.WriteHeader(404)
+			return
+		}
+		if r.Header.Get("X-Verif-Validate") != "" && r.Header.Get("If-None-Match") != "" {
+			w.Header().Set("Cache-Control", "max-age=700")
+			w.Header().Set("Etag", r.Header.Get("If-None-Match"))
+			w.Header().Set("X-Fresh", "1")
+			w.WriteHeader(304)
 			return
 		}
 		for _, h := range c.Hdrs {
@@ -347,6 +366,13 @@ func TestBytes(t *testing.T) {
 	n := 0
 	add := func(framing string, status int, body []byte, hs [][2]string, hop [][2]string) {
 		n++
+		hasTag := false
+		for _, h := range hs {
+			hasTag = hasTag || strings.EqualFold(h[0], "Etag")
+		}
+		if !hasTag && n%2 == 0 {
+			hs = append(append([][2]string{}, hs...), [2]string{"Etag", fmt.Sprintf(`"t%d"`, n)})
+		}
 		c := &byteCase{Name: fmt.Sprintf("/c%d", n), Framing: framing, Status: status, Body: body, Hdrs: hs, Hop: hop}
 		cases = append(cases, c)
 		org.cases[c.Name] = c
@@ -405,12 +431,34 @@ func TestBytes(t *testing.T) {
 			var problems []string
 			var statuses []string
 			var lastDelivered *deliveredResp
-			for round := 0; round < 2; round++ {
+			hasTag := false
+			for _, h := range c.Hdrs {
+				hasTag = hasTag || strings.EqualFold(h[0], "Etag")
+			}
+			rounds := 2
+			if hasTag {
+				// 2: a hit whose body is read only after the entry has been rewritten; 3: a forced validation answered 304
+				// (the freshened entry is written back); 4: a hit on the freshened entry
+				rounds = 5
+			}
+			var d0 *deliveredResp      // the full response as net/http delivered it to the cache
+			var d304 *deliveredResp    // the 304 of the validation round
+			var held *http.Response    // round 2: returned, body not read yet
+			for round := 0; round < rounds; round++ {
 				req, _ := http.NewRequest("GET", url, nil)
+				if round == 3 {
+					req.Header.Set("Cache-Control", "no-cache")
+					req.Header.Set("X-Verif-Validate", "1")
+				}
 				resp, err := rt.RoundTrip(req)
 				if err != nil {
 					problems = append(problems, fmt.Sprintf("round %d: error %v", round, err))
 					break
+				}
+				if round == 2 {
+					held = resp
+					statuses = append(statuses, resp.Header.Get("X-Httpcache-Status")+"(held)")
+					continue
 				}
 				body, berr := io.ReadAll(resp.Body)
 				resp.Body.Close()
@@ -425,17 +473,50 @@ func TestBytes(t *testing.T) {
 				if !bytes.Equal(body, c.Body) {
 					problems = append(problems, fmt.Sprintf("round %d (%s): body differs: %d bytes, origin sent %d (first difference at %d)", round, st, len(body), len(c.Body), firstDiff(body, c.Body)))
 				}
+				if round == 3 && held != nil {
+					// the response returned in round 2 is the caller's: rewriting the entry must not reach its body
+					hb, herr := io.ReadAll(held.Body)
+					held.Body.Close()
+					if herr != nil || !bytes.Equal(hb, c.Body) {
+						problems = append(problems, fmt.Sprintf("round 2 (%s): body read after the entry was rewritten differs: %d bytes, origin sent %d (first difference at %d, error %v)",
+							held.Header.Get("X-Httpcache-Status"), len(hb), len(c.Body), firstDiff(hb, c.Body), herr))
+					}
+				}
 				// the reference: the response as the cache received it from net/http
 				up.mu.Lock()
-				d := up.last[c.Name]
+				dl := up.last[c.Name]
 				up.mu.Unlock()
-				if d == nil {
+				if dl == nil {
 					problems = append(problems, "no origin response recorded")
 					break
 				}
-				lastDelivered = d
-				if !bytes.Equal(d.body.Bytes(), c.Body) || d.status != c.Status {
-					problems = append(problems, fmt.Sprintf("harness: net/http delivered %d bytes status %d, the origin wrote %d bytes status %d", d.body.Len(), d.status, len(c.Body), c.Status))
+				if round == 0 {
+					d0 = dl
+				}
+				if round == 3 {
+					if dl.status != 304 {
+						problems = append(problems, fmt.Sprintf("harness: the validation round got status %d from the origin", dl.status))
+						break
+					}
+					d304 = dl
+				}
+				if d0 == nil {
+					break
+				}
+				lastDelivered = d0
+				if !bytes.Equal(d0.body.Bytes(), c.Body) || d0.status != c.Status {
+					problems = append(problems, fmt.Sprintf("harness: net/http delivered %d bytes status %d, the origin wrote %d bytes status %d", d0.body.Len(), d0.status, len(c.Body), c.Status))
+				}
+				// the fields the response must carry: the origin's, those of a 304 taking the place of the stored ones
+				// (except Content-Length and hop-by-hop fields)
+				d := &deliveredResp{header: d0.header.Clone()}
+				if d304 != nil {
+					for k, vs := range d304.header {
+						if k == "Content-Length" || isHopName(k, d304.header["Connection"]) {
+							continue
+						}
+						d.header[k] = vs
+					}
 				}
 				for k, vs := range d.header {
 					if isHopName(k, d.header["Connection"]) {
@@ -444,12 +525,15 @@ func TestBytes(t *testing.T) {
 					if k == "Age" && st != "MISS" {
 						continue // the cache's own field
 					}
+					if k == "Date" && d304 != nil {
+						continue // a 304 without Date is dated by its receipt
+					}
 					if fmt.Sprint(resp.Header[k]) != fmt.Sprint(vs) {
 						problems = append(problems, fmt.Sprintf("round %d (%s): field %s: %q, the origin response had %q", round, st, k, resp.Header[k], vs))
 					}
 				}
 				for k := range resp.Header {
-					if isHopName(k, d.header["Connection"]) && (round == 1 || k != "Connection") {
+					if isHopName(k, d.header["Connection"]) && (round >= 1 || k != "Connection") {
 						problems = append(problems, fmt.Sprintf("round %d (%s): hop-by-hop field %s in the returned response: %q", round, st, k, resp.Header[k]))
 					}
 					if _, ok := d.header[k]; !ok && !isHopName(k, d.header["Connection"]) {
@@ -460,6 +544,9 @@ func TestBytes(t *testing.T) {
 						}
 					}
 				}
+			}
+			if rounds == 5 && len(problems) == 0 && strings.Join(statuses, ",") != "MISS,HIT,HIT(held),REVALIDATED,HIT" {
+				problems = append(problems, "rounds went "+strings.Join(statuses, ","))
 			}
 			// what was stored must not carry hop-by-hop fields
 			fg, bg := rec.drainAll()
